@@ -6,7 +6,7 @@ CONSTANTS
   RepackCommitBeforeFsync = FALSE
   RepackUnlinkOldFirst = FALSE
   SeekBackWithoutTruncate = FALSE
-  RepackNoIntermediateCommit = FALSE
+  RepackNoIntermediateCommit = TRUE
   ImportFsyncOnlyLast = FALSE
   DeleteIndexFirst = FALSE
 INVARIANT Recoverable
